@@ -626,8 +626,18 @@ func checkValue(c ValueCase, o *vt.Obs) error {
 	if k.ident != nil {
 		id0 = k.ident(v)
 	}
+	dSrc := k.dump(v)
 	e, _, err := safeEnc(k, v)
 	lab := func(l string) { o.Label(l) }
+	// "survives encode-then-decode unchanged" starts with the value that was encoded: the node goes on using it
+	// (events for subscribers, caches) after it has been written.
+	if err == nil {
+		if dAfter := k.dump(v); dAfter != dSrc {
+			if err := vd.fail("encode-modifies-value/"+fam, "%s: encoding modified the value being encoded: %s\nvalue: %s", k.name, firstDiff(dAfter, dSrc), short(dSrc)); err != nil {
+				return err
+			}
+		}
+	}
 	if err != nil {
 		var pe *panicError
 		if !k.encMayFail || errors.As(err, &pe) {
